@@ -589,3 +589,10 @@ func (s *WSrc) ReReport(ctx context.Context, blocking bool) error {
 	}
 	return s.WA().ReportNewValue(ctx, v)
 }
+
+// SetOnVerify installs (or, with nil, removes) the function every Verify call runs first.
+func (s *Scenario) SetOnVerify(f func(c *Cfg)) {
+	s.mu.Lock()
+	s.OnVerify = f
+	s.mu.Unlock()
+}
